@@ -68,6 +68,30 @@ func (l elementLeaf) hash() types.Hash256 {
 	return types.HashBytes(buf)
 }
 
+// MarshalJSON implements json.Marshaler.
+func (l elementLeaf) MarshalJSON() ([]byte, error) {
+	return json.Marshal(struct {
+		*types.StateElement
+		ElementHash types.Hash256 `json:"elementHash"`
+		Spent       bool          `json:"spent"`
+	}{l.StateElement, l.elementHash, l.spent})
+}
+
+// UnmarshalJSON implements json.Unmarshaler.
+func (l *elementLeaf) UnmarshalJSON(b []byte) error {
+	var v struct {
+		types.StateElement
+		ElementHash types.Hash256 `json:"elementHash"`
+		Spent       bool          `json:"spent"`
+	}
+	if err := json.Unmarshal(b, &v); err != nil {
+		return err
+	}
+	se := v.StateElement.Move()
+	l.StateElement, l.elementHash, l.spent = &se, v.ElementHash, v.Spent
+	return nil
+}
+
 // proofRoot returns the root obtained from the leaf and its proof..
 func (l elementLeaf) proofRoot() types.Hash256 {
 	return proofRoot(l.hash(), l.LeafIndex, l.MerkleProof)
